@@ -1,4 +1,4 @@
-CONSTANTS MaxCM = 3  Sizes = {0, 1, 2, 3}  SmallSizes = {0, 2}  NMounts = 3  MaxStA = 2  MaxStB = 2
+CONSTANTS MaxCM = 3  Sizes = {0, 1, 3}  SmallSizes = {0, 2}  NMounts = 3  MaxStA = 2  MaxStB = 2
 INIT Init
 NEXT Next
 VIEW View
@@ -11,4 +11,5 @@ INVARIANT SubLaw
 INVARIANT SatisfiesLaw
 INVARIANT OrLaw
 INVARIANT AddCommutes
+INVARIANT ReservePairs
 INVARIANT Emit
